@@ -267,9 +267,17 @@ def named_like_a_global(x):      # a global named like this function is looked a
 
 
 class CallableGA:
-    """a callable object with an attribute hook, sitting in a local of an outer frame"""
+    """a callable object with an attribute hook (and journaling truthiness), sitting in a local of an outer frame"""
     def __call__(self):
         return 0
+
+    def __bool__(self):
+        note("CallableGA.__bool__")
+        return True
+
+    def __len__(self):
+        note("CallableGA.__len__")
+        return 1
 
     def __getattribute__(self, name):
         note(f"CallableGA.__getattribute__({name})")
@@ -277,7 +285,15 @@ class CallableGA:
 
 
 class GlobalGA:
-    """attribute hook on an object stored in a module global"""
+    """attribute hook (and journaling truthiness) on an object stored in a module global"""
+    def __bool__(self):
+        note("GlobalGA.__bool__")
+        return True
+
+    def __len__(self):
+        note("GlobalGA.__len__")
+        return 1
+
     def __getattribute__(self, name):
         note(f"GlobalGA.__getattribute__({name})")
         return object.__getattribute__(self, name)
@@ -320,8 +336,12 @@ def make_values(rnd):
 
 def workload(vals, out):
     """deterministic program: calls the functions above with the tripwire values and prints results"""
+    import random as _random
+    _random.seed(20261002)         # the program's own use of the global generator: tracing must not consume from it
     h = Holder()
     for i, v in enumerate(vals):
+        if i % 5 == 0:
+            out.append(("rand", i, _random.random(), _random.randrange(1000)))
         r = ident(v)
         out.append(("ident", i, r is v))
         pair(v, vals[(i + 1) % len(vals)], v, k=v, extra=v)
